@@ -2,7 +2,8 @@
 """run_seed.py [--scratch] <patch.diff> <Cxx> [more Cyy…] — apply a seeded change, run the quick checks, undo it.
 Default: the change is applied to /repo itself (and reverted afterwards).  With --scratch the change is applied to a scratch git
 worktree of /repo (/tmp/verif-seedrepo) and the checks are pointed at it (VERIF_REPO / VERIF_HARNESS: a copy of the harness whose
-path dependency is that worktree), so /repo is never touched — use this while anything else reads /repo.
+path dependency is that worktree), so /repo is never touched; the lake project is copied to /tmp/verif-seedlean (VERIF_LEAN) and evidence / replays / build
+output go to /tmp/verif-seedout (VERIF_OUT), so nothing under /verif changes either and ordinary checks can run at the same time.
 Prints for each property whether the check raised a VIOLATION (caught) and how."""
 import subprocess, sys, os, json, shutil
 args = sys.argv[1:]
@@ -33,6 +34,13 @@ if scratch:
     open(os.path.join(hz, "Cargo.toml"), "w").write(t)
     env["VERIF_REPO"] = repo
     env["VERIF_HARNESS"] = hz
+    # private copy of the lake project (generated kernels are rewritten by every check) and of the output directories
+    lz, oz = "/tmp/verif-seedlean", "/tmp/verif-seedout"
+    os.makedirs(oz, exist_ok=True)
+    r = sh("rsync -a --delete --exclude '*.lock' /verif/lean/ %s/" % lz)
+    assert r.returncode == 0, r.stdout
+    env["VERIF_LEAN"] = lz
+    env["VERIF_OUT"] = oz
 assert sh("git -C %s status --porcelain -- src" % repo).stdout.strip() == "", "%s/src is dirty" % repo
 r = sh("git -C %s apply %s" % (repo, patch))
 if r.returncode: print("patch does not apply:", r.stdout); sys.exit(2)
@@ -49,5 +57,6 @@ try:
         out[p] = {"exit": r.returncode, "violations": len(viol), "kinds": kinds, "no_failing_input": any("no-failing-input-found" in v for v in viol), "tail": r.stdout.strip().splitlines()[-1] if r.stdout.strip() else ""}
 finally:
     sh("git -C %s checkout -- ." % repo)
-    sh("python3 /verif/tools/rs2lean.py --all /repo /verif/lean/DryocVerif/Gen")
+    if not scratch:
+        sh("python3 /verif/tools/rs2lean.py --all /repo /verif/lean/DryocVerif/Gen")
 print(json.dumps(out, indent=1))
